@@ -302,7 +302,14 @@ def d7_backoff_does_not_accumulate(ctx):
                    "%s" % ws, key="D7:failure-count-writers")
 
 
-RULES = [d7_backoff_does_not_accumulate, d1_who_tears_down, d2_liveness_predicate, d3_retry_spacing, d4_clean_rejoin, d5_survivors, d6_configured_timeout_applied]
+def d2b_connected_links_have_a_receive_stamp(ctx):
+    """Detection rests on it: a connected link is timed out iff it has a receive stamp older than the timeout (D2), so every
+    `connected := true` must come with `last_received := Some(..)` and every `last_received := None` with a disconnect."""
+    from . import C10
+    C10.connected_implies_received(ctx, "D2")
+
+
+RULES = [d2b_connected_links_have_a_receive_stamp, d7_backoff_does_not_accumulate, d1_who_tears_down, d2_liveness_predicate, d3_retry_spacing, d4_clean_rejoin, d5_survivors, d6_configured_timeout_applied]
 
 
 def run(ctx):
